@@ -502,49 +502,89 @@ inductive CtcErr where
   | fuel
   deriving DecidableEq, Repr
 
-/-- first loop of commit_tree_changes: direct changes are applied in order, nested ones grouped -/
-def ctcDirect : Tree → List (Name × List TChange) → List TChange → Except CtcErr (Tree × List (Name × List TChange))
-  | t, gs, [] => .ok (t, gs)
-  | t, gs, (p, v) :: cs =>
+/-- first loop of commit_tree_changes: removals of direct entries are applied in order, direct entries that are
+added or replaced are collected (`new_entries`), nested changes are grouped by their first component -/
+def ctcDirect : Tree → List (Name × List TChange) → List (Name × Leaf) → List TChange →
+    Except CtcErr (Tree × List (Name × List TChange) × List (Name × Leaf))
+  | t, gs, ss, [] => .ok (t, gs, ss)
+  | t, gs, ss, (p, v) :: cs =>
     match p with
     | [] => .error .key     -- not produced by `bytes.split`
     | [n] =>
       (match v with
        | none => (match t.del n with
           | none => .error .key
-          | some t' => ctcDirect t' gs cs)
-       | some l => ctcDirect (t.set n (.file l)) gs cs)
-    | n :: m :: q => ctcDirect t (groupAdd n (m :: q, v) gs) cs
+          | some t' => ctcDirect t' gs ss cs)
+       | some l => ctcDirect t gs (ss ++ [(n, l)]) cs)
+    | n :: m :: q => ctcDirect t (groupAdd n (m :: q, v) gs) ss cs
+
+/-- the sub-tree the nested changes under `name` start from: `tree_obj[name][1]` loaded from the store, an empty
+Tree when the name is absent -/
+def ctcOrig (t : Tree) (name : Name) : Except CtcErr Tree :=
+  match t.find name with
+  | none => .ok .nil
+  | some (.dir sub) => .ok sub
+  | some (.file l) => if isGitlinkMode l.mode then .error .key else .error .notTree
+
+/-- one iteration of the second loop, given the recursive call -/
+def ctcGroup (rec : Tree → List TChange → Except CtcErr Tree) (acc : Except CtcErr Tree) (g : Name × List TChange) :
+    Except CtcErr Tree :=
+  match acc with
+  | .error e => .error e
+  | .ok t =>
+    match ctcOrig t g.1 with
+    | .error e => .error e
+    | .ok sub =>
+      match rec sub g.2 with
+      | .error e => .error e
+      | .ok sub' =>
+        if sub'.isNil then (match t.del g.1 with | none => .error .key | some t' => .ok t')
+        else .ok (t.set g.1 (.dir sub'))
+
+/-- third loop: `tree_obj[name] = (new_mode, new_sha)` for the collected direct entries -/
+def ctcSets (t : Tree) (ss : List (Name × Leaf)) : Tree := ss.foldl (fun t s => t.set s.1 (.file s.2)) t
 
 /-- `commit_tree_changes(store, tree, changes)`; `fuel` bounds the recursion depth (longest path + 1) -/
 def ctcAux : Nat → Tree → List TChange → Except CtcErr Tree
   | 0, _, _ => .error .fuel
   | fuel + 1, t, cs =>
-    match ctcDirect t [] cs with
+    match ctcDirect t [] [] cs with
     | .error e => .error e
-    | .ok (t1, groups) =>
-      groups.foldl (fun acc g =>
-        match acc with
-        | .error e => .error e
-        | .ok t =>
-          let orig : Except CtcErr Tree := match t.find g.1 with
-            | none => .ok .nil
-            | some (.dir sub) => .ok sub
-            | some (.file l) => if isGitlinkMode l.mode then .error .key else .error .notTree
-          match orig with
-          | .error e => .error e
-          | .ok sub =>
-            match ctcAux fuel sub g.2 with
-            | .error e => .error e
-            | .ok sub' =>
-              if sub'.isNil then (match t.del g.1 with | none => .error .key | some t' => .ok t')
-              else .ok (t.set g.1 (.dir sub'))) (.ok t1)
+    | .ok (t1, groups, sets) =>
+      match groups.foldl (ctcGroup (ctcAux fuel)) (.ok t1) with
+      | .error e => .error e
+      | .ok t2 => .ok (ctcSets t2 sets)
 
 def maxLen : List TChange → Nat
   | [] => 0
   | c :: cs => max c.1.length (maxLen cs)
 
 def commitTreeChanges (t : Tree) (cs : List TChange) : Except CtcErr Tree := ctcAux (maxLen cs + 1) t cs
+
+/-! #### the code before the fix "commit_tree_changes applies a change list that replaces a directory by a file"
+(kept as a regression witness: direct entries were stored immediately, before the nested changes) -/
+
+def ctcDirectOld : Tree → List (Name × List TChange) → List TChange → Except CtcErr (Tree × List (Name × List TChange))
+  | t, gs, [] => .ok (t, gs)
+  | t, gs, (p, v) :: cs =>
+    match p with
+    | [] => .error .key
+    | [n] =>
+      (match v with
+       | none => (match t.del n with
+          | none => .error .key
+          | some t' => ctcDirectOld t' gs cs)
+       | some l => ctcDirectOld (t.set n (.file l)) gs cs)
+    | n :: m :: q => ctcDirectOld t (groupAdd n (m :: q, v) gs) cs
+
+def ctcAuxOld : Nat → Tree → List TChange → Except CtcErr Tree
+  | 0, _, _ => .error .fuel
+  | fuel + 1, t, cs =>
+    match ctcDirectOld t [] cs with
+    | .error e => .error e
+    | .ok (t1, groups) => groups.foldl (ctcGroup (ctcAuxOld fuel)) (.ok t1)
+
+def commitTreeChangesOld (t : Tree) (cs : List TChange) : Except CtcErr Tree := ctcAuxOld (maxLen cs + 1) t cs
 
 /-- the `changes` argument that expresses a diff (what a caller patching a tree with a `tree_changes` result
 passes), in normal form -- every path at most once: a removal `(path, None, None)` for every path the diff removes and
